@@ -16,3 +16,18 @@ pub open spec fn zvals(es: Seq<(Seq<u8>, int)>) -> bool { forall|i: int| 0 <= i 
 pub open spec fn vals_fit(es: Seq<(Seq<u8>, int)>) -> bool { forall|i: int| 0 <= i < es.len() ==> 0 <= (#[trigger] es[i]).1 <= u64::MAX }
 /// no node has been written twice
 pub open spec fn nodup(g: G) -> bool { forall|a: nat, b: nat| g.dom().contains(a) && g.dom().contains(b) && a != b ==> #[trigger] g[a] != #[trigger] g[b] }
+/// length of the longest common prefix
+pub open spec fn lcp(a: Seq<u8>, b: Seq<u8>) -> nat
+    decreases a.len()
+{
+    if a.len() == 0 || b.len() == 0 || a[0] != b[0] { 0 } else { 1 + lcp(a.drop_first(), b.drop_first()) }
+}
+/// number of non-root nodes of the prefix trie of a sorted key list: each key adds what it does not share with its predecessor
+pub open spec fn tsz(es: Seq<(Seq<u8>, int)>) -> nat
+    decreases es.len()
+{
+    if es.len() == 0 { 0 } else {
+        let prev = if es.len() >= 2 { es[es.len() - 2].0 } else { Seq::<u8>::empty() };
+        (tsz(es.drop_last()) + es.last().0.len() - lcp(prev, es.last().0)) as nat
+    }
+}
